@@ -14,20 +14,26 @@
     - extreme_is_fold + fold_is_extreme + fold_keeps_first + vfold_nth: Minimum/Maximum/MinAbs/MaxAbs (element-wise on
       vectors) return the signed sample of extreme key over the initial value, the operand at every state where the
       auto-update ran after the measure had been evaluated, and the current state; Extreme::setValue is excluded for a
-      reason (extreme_setvalue_refuted, known finding);
+      reason (extreme_setvalue_refuted, known finding); every statement about runs is for both variants [fx] of the model:
+      fx = false the code as it is, fx = true with the repair patches/C23_extreme_setvalue.diff, under which setValue is
+      admissible in every state (setvalue_restarts_history_when_repaired); the check decides which one the tree implements;
     - Delay: copy_keeps_sorted, delay_buffer_returns_bracketing_sample (+ exhaustive cases; interpolation between the two
       bracketing samples, flat before the first, EXTRAPOLATION through the last two when t - delay is after the newest
       sample, also for delay = 0), prune_preserves_answers (pruning never changes an answer at or after t - delay, delay >= 0),
       delay_is_calc_on_buffer (the state machine: buffer changes only by copyInAndUpdate at an auto-update, getValue =
-      calcValueAtTimeLinearOnly on the buffer present when first asked at the current time), lerp_affine_exact;
+      calcValueAtTimeLinearOnly on the buffer present when first asked at the current time -- that qualification is needed:
+      delay_autoupdate_not_transparent, known finding), lerp_affine_exact;
     - sample_hold_holds: SPECIFICATION ONLY -- Measure::SampleAndHold is declared in Measure.h but has no implementation
       in the source, so there is nothing to tie it to;
     - Differentiate (finite differences): the formula (f_ensure_value), exact on affine operands, second-order form exact
       on quadratics; Integrate: zdot := integrand (specification).
     NOT DECIDED: Integrate accuracy (integrator dependent), Differentiate accuracy on general operands, the Delay
-    interpolation/extrapolation error against the operand's true value at t - delay, that the pruned buffer after MANY
-    updates still answers like the full history (proved for one update; checked on every run against the Python
-    interpolant of the recorded history), cubic interpolation (not implemented), floating point (theorems are over R). *)
+    interpolation/extrapolation error against the operand's true value at t - delay, cubic interpolation (not implemented),
+    floating point (theorems are over R).
+    pruned_buffer_answers_like_full_history: after ANY number of updates at non-decreasing times (delay >= 0) the pruned
+    buffer answers every request at or after (last update time - delay) exactly like the never-pruned sample history, so
+    together with delay_is_calc_on_buffer the Delay value is the piecewise-linear interpolant (extrapolant) of ALL samples
+    recorded at auto-updates. *)
 From Coq Require Import List Arith Bool PeanoNat ZArith Reals.
 From Coquelicot Require Import Coquelicot.
 Require Import Num C23_Model C23_Proofs C23_Arith C23_Extreme C23_Delay.
@@ -84,18 +90,18 @@ Theorem C23_tget_correct (E : Env) m : dep m <= e_stage E -> J E m -> fst (tget 
 Proof. exact (tget_correct E m). Qed.
 Print Assumptions C23_tget_correct.
 
-Theorem C23_step_inv (s : St) (o : Op) : Inv s -> well_staged s o -> Inv (fst (step ROps s o)).
-Proof. exact (step_inv s o). Qed.
+Theorem C23_step_inv (fx : bool) (s : St) (o : Op) : Inv s -> well_staged s o -> Inv (fst (step ROps fx s o)).
+Proof. exact (step_inv fx s o). Qed.
 Print Assumptions C23_step_inv.
 
-Theorem C23_arith_eval_correct (s : St) (ops : list Op) : Inv s -> ws_run s ops -> obs_run s ops.
-Proof. exact (arith_eval_correct s ops). Qed.
+Theorem C23_arith_eval_correct (fx : bool) (s : St) (ops : list Op) : Inv s -> ws_run fx s ops -> obs_run fx s ops.
+Proof. exact (arith_eval_correct fx s ops). Qed.
 Print Assumptions C23_arith_eval_correct.
 
-Theorem C23_run_obs_nth (s : St) (ops : list Op) : forall j o, nth_error ops j = Some o ->
-  exists sj, nth_error (snd (run ROps s ops)) j = Some (snd (step ROps sj o)) /\
-             (obs_run s ops -> obs_ok sj o (snd (step ROps sj o))).
-Proof. exact (run_obs_nth s ops). Qed.
+Theorem C23_run_obs_nth (fx : bool) (s : St) (ops : list Op) : forall j o, nth_error ops j = Some o ->
+  exists sj, nth_error (snd (run ROps fx s ops)) j = Some (snd (step ROps fx sj o)) /\
+             (obs_run fx s ops -> obs_ok sj o (snd (step ROps fx sj o))).
+Proof. exact (run_obs_nth fx s ops). Qed.
 Print Assumptions C23_run_obs_nth.
 
 Theorem C23_Inv_init t vars trees machs :
@@ -109,18 +115,18 @@ Theorem C23_arith_eval_correct_example :
   let s := mkSt (env0 1%R [(5%R, 4)]) [mk_scale ROps 2%R (mk_plus ROps (MVar 0) (mk_sin ROps 1%R 3%R 0%R))] [] in
   let ops := [Realize 8; GetT 0 [] 0; SetVar 0 7%R; Realize 4; GetT 0 [] 0; SetTime 2%R; Realize 8; GetT 0 [false] 0;
               GetT 0 [false; true] 2; GetT 0 [] 0] in
-  Inv s /\ ws_run s ops /\ obs_run s ops /\
-  nth_error (snd (run ROps s ops)) 9 = Some (OVal [2 * (7 + 1 * sin (3 * 2 + 0))])%R.
+  Inv s /\ ws_run false s ops /\ obs_run false s ops /\
+  nth_error (snd (run ROps false s ops)) 9 = Some (OVal [2 * (7 + 1 * sin (3 * 2 + 0))])%R.
 Proof. exact (@arith_eval_correct_example). Qed.
 Print Assumptions C23_arith_eval_correct_example.
 
 Theorem C23_arith_eval_refuted_variable : exists (s : St) (ops : list Op),
-  env_wf (s_env s) /\ vars_pos (s_env s) /\ List.Forall (J (s_env s)) (s_trees s) /\ ws_run s ops /\ ~ obs_run s ops.
+  env_wf (s_env s) /\ vars_pos (s_env s) /\ List.Forall (J (s_env s)) (s_trees s) /\ ws_run false s ops /\ ~ obs_run false s ops.
 Proof. exact (@arith_eval_refuted_variable). Qed.
 Print Assumptions C23_arith_eval_refuted_variable.
 
 Theorem C23_arith_eval_refuted_early_get : exists (s : St) (ops : list Op),
-  Inv s /\ (forall j, nth_error (snd (run ROps s ops)) j <> Some OGuard) /\ ~ obs_run s ops.
+  Inv s /\ (forall j, nth_error (snd (run ROps false s ops)) j <> Some OGuard) /\ ~ obs_run false s ops.
 Proof. exact (@arith_eval_refuted_early_get). Qed.
 Print Assumptions C23_arith_eval_refuted_early_get.
 
@@ -141,14 +147,14 @@ Theorem C23_x_auto_spec (E : Env) x init G : XI E x init G ->
 Proof. exact (x_auto_spec E x init G). Qed.
 Print Assumptions C23_x_auto_spec.
 
-Theorem C23_step_XS (s : St) j o src init G (op : Op) : XS s j o src init G -> x_allowed j op ->
-  XS (fst (step ROps s op)) j o src init (ghost_step s j op G).
-Proof. exact (step_XS s j o src init G op). Qed.
+Theorem C23_step_XS (fx : bool) (s : St) j o src init G (op : Op) : XS s j o src init G -> x_allowed j op ->
+  XS (fst (step ROps fx s op)) j o src init (ghost_step s j op G).
+Proof. exact (step_XS fx s j o src init G op). Qed.
 Print Assumptions C23_step_XS.
 
-Theorem C23_extreme_is_fold (s : St) j o src init G (ops : list Op) :
-  XS s j o src init G -> List.Forall (x_allowed j) ops -> x_run_ok s j o src init G ops.
-Proof. exact (extreme_is_fold s j o src init G ops). Qed.
+Theorem C23_extreme_is_fold (fx : bool) (s : St) j o src init G (ops : list Op) :
+  XS s j o src init G -> List.Forall (x_allowed j) ops -> x_run_ok fx s j o src init G ops.
+Proof. exact (extreme_is_fold fx s j o src init G ops). Qed.
 Print Assumptions C23_extreme_is_fold.
 
 Theorem C23_XS_init t vars trees machs j o src init :
@@ -157,11 +163,17 @@ Theorem C23_XS_init t vars trees machs j o src init :
 Proof. exact (XS_init t vars trees machs j o src init). Qed.
 Print Assumptions C23_XS_init.
 
-Theorem C23_XI_x_set (E : Env) x init G v : env_wf E -> XI E x init G ->
-  ~ fresh (inval E 7) (vdep (x_src x)) (x_newupd x) -> length v = length (x_src x) ->
-  XI (inval E 7) (x_set (inval E 7) x v) v [].
-Proof. exact (XI_x_set E x init G v). Qed.
+Theorem C23_XI_x_set (fx : bool) (E : Env) x init G v : env_wf E -> XI E x init G ->
+  (fx = false -> ~ fresh (inval E 7) (vdep (x_src x)) (x_newupd x)) -> length v = length (x_src x) ->
+  XI (inval E 7) (x_set fx (inval E 7) x v) v [].
+Proof. exact (XI_x_set fx E x init G v). Qed.
 Print Assumptions C23_XI_x_set.
+
+Theorem C23_setvalue_restarts_history_when_repaired (s : St) j o src init G v :
+  XS s j o src init G -> length v = length src ->
+  XS (fst (step ROps true s (SetExt j v))) j o src v [].
+Proof. exact (setvalue_restarts_history_when_repaired s j o src init G v). Qed.
+Print Assumptions C23_setvalue_restarts_history_when_repaired.
 
 Local Open Scope R_scope.
 
@@ -182,15 +194,15 @@ Theorem C23_extreme_is_fold_example :
   let s := mkSt (env0 1 []) [] [MX (mk_ext Maximum [PTime] [0])] in
   let ops := [Realize 8; AutoUpd; SetTime (1/2); Realize 8; GetM 0] in
   XS s 0%nat Maximum [PTime] [0] [] /\ List.Forall (x_allowed 0) ops /\
-  nth_error (snd (run ROps s ops)) 4 = Some (OVal [1]).
+  nth_error (snd (run ROps false s ops)) 4 = Some (OVal [1]).
 Proof. exact (@extreme_is_fold_example). Qed.
 Print Assumptions C23_extreme_is_fold_example.
 
 Theorem C23_extreme_setvalue_refuted :
   (exists (s : St) (ops : list Op), XS s 0%nat Maximum [PTime] [0] [] /\
-     nth_error (snd (run ROps s ops)) 3 = Some OThrow) /\
+     nth_error (snd (run ROps false s ops)) 3 = Some OThrow) /\
   (exists (s : St) (ops : list Op), XS s 0%nat Maximum [PTime] [10] [] /\
-     nth_error (snd (run ROps s ops)) 3 = Some (OVal [-5]) /\ vfold Maximum [-5] [[1]] = [1]).
+     nth_error (snd (run ROps false s ops)) 3 = Some (OVal [-5]) /\ vfold Maximum [-5] [[1]] = [1]).
 Proof. exact (@extreme_setvalue_refuted). Qed.
 Print Assumptions C23_extreme_setvalue_refuted.
 
@@ -229,18 +241,18 @@ Theorem C23_prune_preserves_answers (old : Buf) tE tNow v td : sorted old -> tE 
 Proof. exact (prune_preserves_answers old tE tNow v td). Qed.
 Print Assumptions C23_prune_preserves_answers.
 
-Theorem C23_step_DS (s : St) j src delay bv (op : Op) : DS s j src delay bv -> op <> Init ->
-  DS (fst (step ROps s op)) j src delay (dghost_step s j op bv) /\
-  (forall d d', dmach s j = Some d -> dmach (fst (step ROps s op)) j = Some d' -> d_buf d' = dbuf_step s j op (d_buf d)) /\
+Theorem C23_step_DS (fx : bool) (s : St) j src delay bv (op : Op) : DS s j src delay bv -> op <> Init ->
+  DS (fst (step ROps fx s op)) j src delay (dghost_step s j op bv) /\
+  (forall d d', dmach s j = Some d -> dmach (fst (step ROps fx s op)) j = Some d' -> d_buf d' = dbuf_step s j op (d_buf d)) /\
   (op = GetM j -> (4 <= e_stage (s_env s))%nat ->
-   snd (step ROps s op) = match calc_value_at ROps (dghost_step s j op bv) (e_t (s_env s) - delay) with
+   snd (step ROps fx s op) = match calc_value_at ROps (dghost_step s j op bv) (e_t (s_env s) - delay) with
                           | Some w => OVal w | None => ONaN end).
-Proof. exact (step_DS s j src delay bv op). Qed.
+Proof. exact (step_DS fx s j src delay bv op). Qed.
 Print Assumptions C23_step_DS.
 
-Theorem C23_delay_is_calc_on_buffer (s : St) j src delay bv (ops : list Op) :
-  DS s j src delay bv -> List.Forall (fun o => o <> Init) ops -> d_run_ok s j delay bv ops.
-Proof. exact (delay_is_calc_on_buffer s j src delay bv ops). Qed.
+Theorem C23_delay_is_calc_on_buffer (fx : bool) (s : St) j src delay bv (ops : list Op) :
+  DS s j src delay bv -> List.Forall (fun o => o <> Init) ops -> d_run_ok fx s j delay bv ops.
+Proof. exact (delay_is_calc_on_buffer fx s j src delay bv ops). Qed.
 Print Assumptions C23_delay_is_calc_on_buffer.
 
 Theorem C23_DS_init t vars trees machs j src delay bv :
@@ -256,6 +268,41 @@ Theorem C23_delay_is_calc_on_buffer_example :
   let s := mkSt (env0 0 []) [] [MD (mk_delay [PTime] (1/2))] in
   let ops := [Realize 8; AutoUpd; SetTime 1; Realize 8; AutoUpd; SetTime 2; Realize 8; GetM 0] in
   DS s 0%nat [PTime] (1/2) [] /\ List.Forall (fun o : Op => o <> Init) ops /\
-  exists v, nth_error (snd (run ROps s ops)) 7 = Some (OVal [v]) /\ v = 3/2.
+  exists v, nth_error (snd (run ROps false s ops)) 7 = Some (OVal [v]) /\ v = 3/2.
 Proof. exact (@delay_is_calc_on_buffer_example). Qed.
 Print Assumptions C23_delay_is_calc_on_buffer_example.
+
+Theorem C23_delay_autoupdate_not_transparent :
+  let s := mkSt (env0 0 []) [] [MD (mk_delay [PSin 1 (PI/2) 0] (1/2))] in
+  let ops := [Realize 8; AutoUpd; SetTime 1; Realize 8; AutoUpd; SetTime 2; Realize 8; GetM 0; AutoUpd; GetM 0;
+              SetTime 2; Realize 8; GetM 0] in
+  DS s 0%nat [PSin 1 (PI/2) 0] (1/2) [] /\ List.Forall (fun o : Op => o <> Init) ops /\
+  exists v1 v2, nth_error (snd (run ROps false s ops)) 7 = Some (OVal [v1]) /\ nth_error (snd (run ROps false s ops)) 9 = Some (OVal [v1]) /\
+                nth_error (snd (run ROps false s ops)) 12 = Some (OVal [v2]) /\ v1 = 3/2 /\ v2 = 1/2.
+Proof. exact (@delay_autoupdate_not_transparent). Qed.
+Print Assumptions C23_delay_autoupdate_not_transparent.
+
+Theorem C23_PR_same_answer tq P H td : sorted H -> PR tq P H -> tq <= td -> calc_value_at ROps P td = calc_value_at ROps H td.
+Proof. exact (PR_same_answer tq P H td). Qed.
+Print Assumptions C23_PR_same_answer.
+
+Theorem C23_PR_step tq P H tE tNow v : sorted H -> PR tq P H -> tq <= tE -> tE <= tNow ->
+  PR tE (copy_in_and_update ROps P tE tNow v) (hist_step H tNow v) /\ sorted (hist_step H tNow v).
+Proof. exact (PR_step tq P H tE tNow v). Qed.
+Print Assumptions C23_PR_step.
+
+Theorem C23_pruned_buffer_answers_like_full_history delay : 0 <= delay -> forall samples t0 P H,
+  sorted H -> PR (t0 - delay) P H -> nondecreasing_from t0 samples ->
+  let PH := replay delay samples (P, H) in
+  sorted (snd PH) /\ PR (last_time t0 samples - delay) (fst PH) (snd PH) /\
+  forall td, last_time t0 samples - delay <= td -> calc_value_at ROps (fst PH) td = calc_value_at ROps (snd PH) td.
+Proof. exact (pruned_buffer_answers_like_full_history delay). Qed.
+Print Assumptions C23_pruned_buffer_answers_like_full_history.
+
+Theorem C23_pruned_history_example :
+  let smp := [(0, [0]); (1, [1]); (2, [0]); (3, [1]); (4, [0])] in
+  0 <= 3/2 /\ sorted ([] : Buf) /\ PR (0 - 3/2) [] [] /\ nondecreasing_from 0 smp /\
+  length (fst (replay (3/2) smp ([], []))) = 4%nat /\ length (snd (replay (3/2) smp ([], []))) = 5%nat /\
+  length (fst (replay (1/2) smp ([], []))) = 5%nat.
+Proof. exact (@pruned_history_example). Qed.
+Print Assumptions C23_pruned_history_example.
